@@ -48,7 +48,13 @@ struct Harness {
       base.push_back(&lex.get_as_type(*lex.make_id_expr(lex.get_identifier(u8"T"))));
       base.push_back(&lex.get_as_type(lex.get_identifier(u8"size_type")));
       base.push_back(&lex.get_as_type(L.true_value(), lex.get_transfer_from_linkage(lex.get_linkage(u8"Java"))));
-      while (base.size() < 40) base.push_back(&lex.get_pointer(*base[base.size() - 7]));
+      // unqualified nodes that *denote* a qualified type: an as-type over a qualified type, a decltype of one, a pointer to one
+      auto q = [&](std::uintptr_t bits, const Type& t) -> const Type& { auto& n = lex.get_qualified(Qualifiers(bits), t); model.emplace(std::make_pair(bits, &t), &n); return n; };   // known to the model
+      base.push_back(&lex.get_as_type(q(1, L.int_type())));
+      base.push_back(&lex.get_as_type(q(6, lex.get_pointer(L.char_type()))));
+      base.push_back(&lex.get_decltype(q(2, L.double_type())));
+      base.push_back(&lex.get_pointer(q(1, L.char_type())));
+      while (base.size() < 44) base.push_back(&lex.get_pointer(*base[base.size() - 7]));
       for (auto t : base) if (t->category == Category_code::Qualified) { ctx().inconclusive("harness: base pool contains a qualified type"); }
    }
 
